@@ -298,6 +298,10 @@ func driveC03(t *testing.T, out *vEmitter) {
 				sets = append(sets, cs{fmt.Sprintf("A1-ts%+d", d), []*http.Cookie{{Name: logins[0].cookie.Name, Value: v[:p1+1] + strconv.FormatInt(ts+d, 10) + v[p2:]}}})
 			}
 		}
+		// the same instant spelled differently (what a lenient integer parser maps to the signed number)
+		for _, sp := range []struct{ label, ts string }{{"leading-zero", "0" + v[p1+1:p2]}, {"leading-zeros", "000" + v[p1+1:p2]}, {"plus-sign", "+" + v[p1+1:p2]}, {"plus-zero", "+0" + v[p1+1:p2]}} {
+			sets = append(sets, cs{"A1-ts-respelled-" + sp.label, []*http.Cookie{{Name: logins[0].cookie.Name, Value: v[:p1+1] + sp.ts + v[p2:]}}})
+		}
 		sets = append(sets,
 			cs{"A1-truncated", []*http.Cookie{{Name: logins[0].cookie.Name, Value: v[:len(v)-5]}}},
 			cs{"tampered-then-A1", []*http.Cookie{{Name: logins[0].cookie.Name, Value: vFlip(v, p2+1)}, ck(logins[0])}},
